@@ -557,6 +557,38 @@ class _NpShim:
         return np.arctan2(y, x)
 
 
+def _nonneg_syntactic(t, depth=0):
+    """conservative syntactic test: t is a sum of non-negative numerals and of products that are squares
+    (a*a, a**2, c*a*a with c >= 0)."""
+    if depth > 6:
+        return False
+    if z3.is_rational_value(t) or z3.is_int_value(t):
+        v, _ = z3val_to_fraction(t)
+        return v >= 0
+    if not z3.is_app(t):
+        return False
+    k = t.decl().kind()
+    ch = t.children()
+    if k == z3.Z3_OP_ADD:
+        return all(_nonneg_syntactic(c, depth + 1) for c in ch)
+    if k == z3.Z3_OP_POWER:
+        return z3.is_int_value(ch[1]) or z3.is_rational_value(ch[1]) and ch[1].as_long() % 2 == 0 if False else (z3.is_rational_value(ch[1]) or z3.is_int_value(ch[1])) and int(str(ch[1])) % 2 == 0
+    if k == z3.Z3_OP_MUL:
+        consts = [c for c in ch if z3.is_rational_value(c) or z3.is_int_value(c)]
+        rest = [c for c in ch if not (z3.is_rational_value(c) or z3.is_int_value(c))]
+        sign_ok = all(z3val_to_fraction(c)[0] >= 0 for c in consts)
+        if not sign_ok:
+            return False
+        # pair up identical factors
+        ids = {}
+        for c in rest:
+            if c.decl().kind() == z3.Z3_OP_POWER and _nonneg_syntactic(c, depth + 1):
+                continue
+            ids[c.get_id()] = ids.get(c.get_id(), 0) + 1
+        return all(n % 2 == 0 for n in ids.values())
+    return False
+
+
 class _MathShim:
     def __getattr__(self, name):
         return getattr(math, name)
@@ -566,7 +598,7 @@ class _MathShim:
         if isinstance(x, Sym):
             eng = Engine.cur
             eng.shims_hit.add("math.sqrt")
-            if not eng.decide(x.t >= 0):
+            if not _nonneg_syntactic(x.t) and not eng.decide(x.t >= 0):
                 raise ValueError("math domain error")
             cache = eng.__dict__.setdefault("_sqrtcache", {})
             key = x.t.get_id()
